@@ -31,7 +31,7 @@ VARIANTS_THOROUGH = VARIANTS_QUICK + [
 ]
 GOST_EXTRA = [
     ("smalltbl", ("!__SSE2__", "GOST3411_2012_USE_SMALL_TABLES"), ()),
-    ("smalltbl_tau", ("!__SSE2__", "GOST3411_2012_USE_SMALL_TABLES", "GOST3411_2012_USE_TABLE_TAU"), ()),
+    ("smalltbl_tau", ("!__SSE2__", "GOST3411_2012_USE_SMALL_TABLES", "GOST3411_2012_USE_SMALL_TABLES_TABLE_TAU"), ()),
 ]
 
 
